@@ -80,6 +80,9 @@ func digestBlock(c *vnet.Chain, txs [][]byte, res *abci.ResponseFinalizeBlock, r
 // c20OnNet, when set, is told about the network of a history (used by the race-detector pass to attach concurrent readers).
 var c20OnNet func(*vnet.Network)
 
+// c20Restart, when set, makes the history compare a restarted node on sampled blocks and receives the outcomes.
+var c20Restart func(chain string, height int64, diff string)
+
 // c20History runs history i and returns its block digests. realSeal: include ETH updates with the real ethash check.
 func c20History(i int, seed int64, realSeal bool, wallT0 int64) []blockDigest {
 	rng := rand.New(rand.NewSource(seed*15485863 + int64(i)))
@@ -96,6 +99,11 @@ func c20History(i int, seed int64, realSeal bool, wallT0 int64) []blockDigest {
 		c := c
 		c.OnBlock = func(txs [][]byte, res *abci.ResponseFinalizeBlock, r *vnet.Result) {
 			out = append(out, digestBlock(c, txs, res, r))
+		}
+		if c20Restart != nil {
+			// every 3rd block with transactions is also executed by a node restarted on the database as committed so far
+			c.RestartEvery = 3
+			c.OnRestart = func(h int64, diff string) { c20Restart(c.Name, h, diff) }
 		}
 	}
 	w := world.New(fmt.Sprintf("det%d", i), net, rng)
@@ -237,8 +245,8 @@ func TestC20Child(t *testing.T) {
 func TestC20(t *testing.T) {
 	rec := mon.New("C20", "exploration",
 		"histories containing every TIBC transaction kind (Tendermint client updates, packets on all ports over direct and relayed routes, acks, cleans, governance execution, failing and adversarial messages, creation and updates of a BSC client with valid and invalid synthetic headers, creation and updates of an ETH client on recorded mainnet headers with the real ethash check) are executed repeatedly: "+
-			"in the same process one after the other, and in fresh processes with different GOMAXPROCS, TMPDIR (pre-filled with junk), TZ and LANG, plus (fault) an unwritable TMPDIR; every block's inputs (time, tx bytes) and outputs (code, codespace, log, gas, data, events of every tx, app hash) are digested and the streams compared. One evaluation = one block compared between two executions; distinct = distinct (history, block) pairs")
-	rec.Require("blocks-compared", "fresh-process-replays", "eth-real-seal-blocks", "wall-clock-probe-replayed-after-its-date")
+			"in the same process one after the other (in the first execution every 3rd block with transactions is also executed by a node freshly restarted on a copy of the committed database and compared tx result by tx result), and in fresh processes with different GOMAXPROCS, TMPDIR (pre-filled with junk), TZ and LANG, plus (fault) an unwritable TMPDIR; every block's inputs (time, tx bytes) and outputs (code, codespace, log, gas, data, events of every tx, app hash) are digested and the streams compared. One evaluation = one block compared between two executions; distinct = distinct (history, block) pairs")
+	rec.Require("blocks-compared", "fresh-process-replays", "eth-real-seal-blocks", "wall-clock-probe-replayed-after-its-date", "restarted-node-blocks")
 	seed := mon.Seed()
 	nHist := mon.Scale(4, 24)
 	if v, err := strconv.Atoi(os.Getenv("VERIF_C20_N")); err == nil && v > 0 {
@@ -272,7 +280,17 @@ func TestC20(t *testing.T) {
 		if i == 0 {
 			t0 = wallT0
 		}
+		c20Restart = func(chain string, h int64, diff string) {
+			rec.Judge("block-compared/restarted-node", i, chain, h)
+			rec.Count("restarted-node-blocks", 1)
+			if diff != "" {
+				rec.Violate("restarted-node-differs", map[string]string{"run": "restarted-node"},
+					fmt.Sprintf("history %d %s height %d: a node restarted on the committed database executes the block differently from the node that kept running: %s", i, chain, h, diff),
+					map[string]any{"history": i, "seed": seed, "chain": chain, "height": h})
+			}
+		}
 		ref := c20History(i, seed, realSeal, t0)
+		c20Restart = nil
 		if realSeal {
 			rec.Count("eth-real-seal-blocks", 1)
 		}
